@@ -131,6 +131,7 @@ type Run struct {
 	violation *Violation
 
 	symCells      map[*value]*symCell
+	depth         int
 	scaledChecked map[*Term]bool
 	scaledQueries int
 	scaledHits    int
